@@ -1378,3 +1378,81 @@ def rt_eq_odd_annotations(req):
 
 
 RT['eq_odd_annotations'] = rt_eq_odd_annotations
+
+
+def rt_graph_totality(req):
+    """C07 (totality) beyond the functional graphs of stream `examine`: random call graphs in which every function forwards its
+    stars to one, two or three others (or to a terminal function) on different branches, plain or modifiers-decorated, functions
+    and methods: every retrieval returns within a time limit (SIGALRM) with a signature, and the number of guarded examinations
+    stays small.  Seeded by the request."""
+    import random
+    import signal
+    import sigtools
+    from sigtools import _autoforwards as AF
+    from . import progs
+    seed = req[1] if len(req) > 1 else 0
+    rng = random.Random(seed * 7919 + 13)
+    problems = []
+
+    class _Timeout(BaseException):
+        pass
+
+    def on_alarm(signum, frame):
+        raise _Timeout()
+    count = [0]
+    orig = AF._examine_once
+
+    def counted(func, args, kwargs, examine):
+        count[0] += 1
+        return orig(func, args, kwargs, examine)
+    for g in range(40):
+        n = rng.randint(2, 8)
+        L = ['from sigtools import modifiers', 'def t(x, y=1): return x', 'class C(object):', '    pass']
+        decos = ("@modifiers.kwoargs('k%d')", "@modifiers.autokwoargs", "@modifiers.posoargs('p%d')")
+        for i in range(n):
+            outs = [rng.choice(['t'] + ['f%d' % j for j in range(n)]) for _ in range(rng.randint(1, 3))]
+            d = rng.choice((None, None) + decos)
+            own = 'p%d, k%d=None, ' % (i, i) if d else ''
+            if d:
+                L.append(d % i if '%d' in d else d)
+            L.append('def f%d(%s*args, **kwargs):' % (i, own))
+            for b, o in enumerate(outs[:-1]):
+                L.append('    if %s: return %s(*args, **kwargs)' % ('k%d == %d' % (i, b) if d else 'len(args) == %d' % b, o))
+            L.append('    return %s(*args, **kwargs)' % outs[-1])
+        mod, fname = progs.load_module('\n'.join(L) + '\n')
+        old = signal.signal(signal.SIGALRM, on_alarm)
+        AF._examine_once = counted
+        try:
+            for i in range(n):
+                count[0] = 0
+                signal.alarm(10)
+                try:
+                    with warnings.catch_warnings():
+                        warnings.simplefilter('ignore')
+                        s = sigtools.signature(getattr(mod, 'f%d' % i))
+                    signal.alarm(0)
+                    if count[0] > 4000:
+                        problems.append('graph-examinations: %d guarded examinations for one retrieval in a graph of %d functions (seed %s, graph %d, f%d)' % (count[0], n, seed, g, i))
+                except _Timeout:
+                    problems.append('graph-did-not-return: sigtools.signature(f%d) did not return within 10 s in a call graph of %d functions (seed %s, graph %d)\n%s' % (
+                        i, n, seed, g, '\n'.join(L)))
+                    break
+                except Exception as e:  # noqa
+                    signal.alarm(0)
+                    i_ok = _try(lambda: inspect.signature(getattr(mod, 'f%d' % i)))
+                    if i_ok[0] == 'ok':
+                        problems.append('retrieval-raises: sigtools.signature(f%d) raised %s although inspect.signature succeeds (seed %s, graph %d)\n%s' % (
+                            i, type(e).__name__, seed, g, '\n'.join(L)))
+        finally:
+            signal.alarm(0)
+            signal.signal(signal.SIGALRM, old)
+            AF._examine_once = orig
+            progs.unload(fname)
+        if problems:
+            break
+    return ('ok', tuple(problems[:2]), 'graph_totality')
+
+
+RT['graph_totality'] = rt_graph_totality
+for _i in range(3):
+    RT['graph_totality_%d' % _i] = (lambda i: lambda req: rt_graph_totality(('rt:graph_totality', i)))(_i)
